@@ -54,7 +54,7 @@ pub fn fuzz_plan(prop: &str) -> Vec<(&'static str, usize, u32)> {
         "C05" => vec![("write-read", 2500, 8)],
         "C06" => vec![("import", 900, 48)],
         "C07" => vec![("roundtrip", 900, 2)],
-        "C08" => vec![("compile", 700, 2), ("compile-asymmetric-flip", 700, 2), ("compile-unrealisable-cuts", 700, 2)],
+        "C08" => vec![("compile", 700, 2), ("compile-asymmetric-flip", 700, 2), ("compile-unrealisable-cuts", 700, 2), ("compile-edge-ports", 700, 2)],
         "C09" => vec![("programs", 400, 2), ("cyclic", 400, 2), ("arrays", 200, 1)],
         "C12" => vec![("random-chains", 40, 1), ("flatten", 400, 1), ("general-angles", 60, 1), ("general-angles-flatten", 60, 1)],
         "C13" => vec![("polygons-random", 200, 1), ("polygons-large-coordinates", 60, 1), ("paths", 60, 1)],
